@@ -15,6 +15,22 @@ def main():
     wt = os.environ.get("MUT_DIR", "/tmp/mut") + "/" + mid
     tag = os.environ.get("MUT_TAG", "")
     out = os.path.join(wt, "out")
+    if not os.path.isdir(wt):
+        # rebuild the scratch worktree from /verif/seeded/<id><tag>/ (patch.diff, demonstration, meta.json)
+        src = os.path.join(V, "seeded", mid + tag)
+        os.makedirs(os.path.dirname(wt), exist_ok=True)
+        sh("git -C /repo worktree add --detach %s main" % wt, "/")
+        os.makedirs(out, exist_ok=True)
+        for f in os.listdir(src):
+            shutil.copy(os.path.join(src, f), out)
+        m0 = json.load(open(os.path.join(out, "meta.json")))
+        pk = [a for a in (m0.get("demo_cmd") or "").split() if a.startswith("./")]
+        for f in os.listdir(out):
+            if f.endswith("_test.go") and pk:
+                # a demonstration file goes into the package whose name it declares
+                pkgname = [l.split()[1] for l in open(os.path.join(out, f)) if l.startswith("package ")][0].replace("_test", "")
+                dst = [a for a in pk if a.rstrip("/.").split("/")[-1] == pkgname] or pk
+                shutil.copy(os.path.join(out, f), os.path.join(wt, dst[0].rstrip("/.")))
     meta = json.load(open(os.path.join(out, "meta.json")))
     res = {"property": mid, "summary": meta.get("summary"), "needs": meta.get("needs"), "demo_cmd": meta.get("demo_cmd"), "ran": []}
     demo = meta["demo_cmd"]
@@ -59,6 +75,8 @@ def main():
     res["confirmed"] = bool(res["demo_fails_with_change"] and res["demo_passes_without"] and res["builds"] and res["existing_tests_pass_with_change"])
     env = dict(ENV, VERIF_REPO=wt)
     for cid in checks:
+        evf = os.path.join(V, "evidence", cid + ".json")      # the evidence file must keep describing the unchanged tree
+        saved = open(evf).read() if os.path.exists(evf) else None
         for tier in ("quick", "thorough"):
             t = time.time()
             rc, o = sh("./check %s --tier %s" % (cid, tier), V, env=env, timeout=7200)
@@ -66,6 +84,8 @@ def main():
             res["ran"].append({"check": cid, "tier": tier, "exit": rc, "wall_s": round(time.time() - t), "lines": [l[:300] for l in lines[:6]]})
             if rc == 1 or tier == "thorough":
                 break
+        if saved is not None:
+            open(evf, "w").write(saved)
     res["detected"] = any(r["exit"] == 1 for r in res["ran"])
     d = os.path.join(V, "seeded", mid + tag); os.makedirs(d, exist_ok=True)
     shutil.copy(os.path.join(out, "patch.diff"), d)
